@@ -465,7 +465,7 @@ def typed_local(e):
 class C03(Prop):
     id = "C03"
     title = "Compiled bytecode computes exactly what LPC semantics define"
-    lean_modules = ["NV.C03.Props", "NV.C03.Props2", "NV.C03.Props3", "NV.C03.Props4", "NV.C03.Props5", "NV.C03.Props6", "NV.C03.Props7", "NV.C03.Props8", "NV.C03.Witness"]
+    lean_modules = ["NV.C03.Props", "NV.C03.Props2", "NV.C03.Props3", "NV.C03.Props4", "NV.C03.Props5", "NV.C03.Props6", "NV.C03.Props7", "NV.C03.Props8", "NV.C03.Props9", "NV.C03.Witness"]
     theorems = []          # filled below
     witness_theorems = []
     consts = [("oldRangeBehavior", "NV_OLD_RANGE"), ("switchCaseSize", "SWITCH_CASE_SIZE"),
@@ -489,9 +489,12 @@ class C03(Prop):
     level_note = ("no compiler-correctness theorem for generate.c / icode.c (whole programs by correspondence only); reals are "
                   "abstract in the theorems (FloatOps) and IEEE doubles in the driver; identity/aliasing of arrays and "
                   "mappings, string switch tables (address order) and shift counts outside 0..63 are outside the model")
-    rule = ("cases = corpus + known-finding inputs + boundary list + seeded random programs from 12 families (binary/unary "
-            "operators, op=, ++/--, index, range, index/range/char lvalues, switch, loops, calls, macros, literals, "
-            "zero-comparison rewrites) over the boundary value set; each case has 2..9 sibling functions; a case is "
+    rule = ("cases = corpus + known-finding inputs + boundary list + seeded random cases from 18 families (binary/unary "
+            "operators, op=, ++/--, index, range, index/range/char lvalues, integer / nested / string switches, loops, local / "
+            "inherited / function-pointer calls, macros vs hand expansion, literals, zero-comparison rewrites, mapping algebra "
+            "around every growMap threshold, unit traces of the mapping table and of handle_define) over the boundary value set "
+            "(int64 extremes, mixed int/float, empty and multibyte strings, containers across hash-table thresholds); each "
+            "program has 2..12 sibling functions; 14 negative traces check the oracle on every run; a case is "
             "non-trivial when at least one function returns a value (not an error); distinct = distinct canonical trace")
     not_covered = ["aliasing / identity of arrays and mappings (== on containers, shared references)",
                    "string-label switch tables are modelled as equality lookup (the table is sorted by string address)",
@@ -527,9 +530,53 @@ class C03(Prop):
                 atoms.append("eqUpTo %s" % q.group(1))
                 continue
             raise X.TieBroken("guard:handle_define", "atom outside the guard grammar: `%s` in `%s`" % (at, cond))
-        return ("\n/-- C (lib/lpc/lex.c handle_define): a body identifier of length `idlen` is replaced by parameter n iff\n"
+        guards = self.gen_index_guards(X)
+        return guards + ("\n/-- C (lib/lpc/lex.c handle_define): a body identifier of length `idlen` is replaced by parameter n iff\n"
                 "    `%s`  (l = strlen (args[n]); `eqUpTo k` = strncmp (args[n], ids, k) == 0) -/\n"
                 "def macroParamMatch (l idlen : Nat) (eqUpTo : Nat → Bool) : Bool := %s\n" % (cond.replace("-/", "- /"), " && ".join(atoms)))
+
+    def gen_index_guards(self, X):
+        """T4: the bounds tests of F_INDEX (src/interpret.c) for buffers, strings and arrays, transcribed from the source
+        (operators included) into `NV.Gen.C03.indexGuard*`; Props9.lean proves that they are the tests of `LpcOps.index`"""
+        import re
+        src = open(os.path.join(E.REPO, "src/interpret.c")).read()
+        m = re.search(r"case F_INDEX:(.*?)case F_RINDEX:", src, re.S)
+        if not m:
+            raise X.TieBroken("guard:F_INDEX", "case F_INDEX not found in src/interpret.c")
+        blk = m.group(1)
+        want = {"Buf": "Buffer index out of bounds", "Str": "String index out of bounds",
+                "ArrNeg": "Array index must be positive or zero", "ArrHigh": "Array index out of bounds"}
+        out = []
+        for name, msg in want.items():
+            g = re.search(r"if \(((?:[^;{}])*?)\)\s*error \(\"\*%s" % re.escape(msg), blk, re.S)
+            if not g:
+                raise X.TieBroken("guard:F_INDEX", "test in front of error \"%s\" not found" % msg)
+            cond = " ".join(g.group(1).split())
+            atoms = []
+            for at in cond.split("||"):
+                at = at.strip()
+                while at.startswith("(") and at.endswith(")") and at.count("(") - 1 >= 0 and self._balanced(at[1:-1]):
+                    at = at[1:-1].strip()
+                q = re.fullmatch(r"\(sp - 1\)->u\.number (<|<=|>|>=) (0|\(int64_t\)sp->u\.buf->size|\(int64_t\)SVALUE_STRLEN \(sp\)|arr->size)", at)
+                if not q:
+                    raise X.TieBroken("guard:F_INDEX", "atom outside the guard grammar: `%s` in `%s`" % (at, cond))
+                op = {"<": "<", "<=": "≤", ">": ">", ">=": "≥"}[q.group(1)]
+                atoms.append("decide (n %s %s)" % (op, "0" if q.group(2) == "0" else "size"))
+            out.append("/-- C (src/interpret.c F_INDEX): `%s` raises \"%s\" (n = the 64-bit index, size = number of elements) -/\n"
+                       "def indexGuard%s (n size : Int) : Bool := %s\n" % (cond.replace("-/", "- /"), msg, name, " || ".join(atoms)))
+        return "\n" + "\n".join(out)
+
+    @staticmethod
+    def _balanced(t):
+        d = 0
+        for ch in t:
+            if ch == "(":
+                d += 1
+            elif ch == ")":
+                d -= 1
+                if d < 0:
+                    return False
+        return d == 0
 
     def prepare(self, ctx):
         self.exe = E.compile_harness("c03", [os.path.join(E.VERIF, "harness/c03/c03.c")], kind="c03")
@@ -547,6 +594,38 @@ class C03(Prop):
         for k in range(0, len(cases), 200):
             out.update(E.run_harness(self.exe, self.conf, cases[k:k + 200], ctx.rundir, args=["--timeout", "20"]))
         return out
+
+    def extra_checks(self, ctx, tier, rng):
+        """oracle audit on every run: NEGATIVE traces - the judge must reject each of them with the expected verdict"""
+        ok_case = make_case("neg", [[("ret", ("bin", "add", I(1), I(2)))], [("expr", ("asg", L(A), I(1))), ("ret", ("bin", "add", L(A), I(2)))]])
+        sib_case = make_case("neg", [[("ret", I(1))], [("ret", I(2))]], same=[[0, 1]])
+        neg = [
+            ("wrong-value", ok_case.lines, ["r 0 4", "r 1 3"], "bad spec-mismatch why=unexplained fn=t0 impl=4 spec=3"),
+            ("error-instead-of-value", ok_case.lines, ["r 0 3", "r 1 !err"], "bad spec-mismatch why=unexplained fn=t1 impl=!err spec=3"),
+            ("missing-result", ok_case.lines, ["r 0 3"], "bad missing-result fn=t1"),
+            ("crash", ok_case.lines, ["r 0 3", "crash signal 11"], "bad impl-crash crash signal 11"),
+            ("compile-fail", ok_case.lines, ["compile-fail"], "bad impl-crash compile-fail"),
+            ("float-for-int", ok_case.lines, ["r 0 f:4008000000000000", "r 1 3"], "bad spec-mismatch why=unexplained fn=t0"),
+            ("siblings-differ", sib_case.lines, ["r 0 1", "r 1 2"], "bad spec-siblings-differ"),
+            ("finding-needs-model-agreement", make_case("neg", [[("expr", ("asg", L(A), I(1))), ("expr", ("aop", "add", L(A), Fl(1.5))), ("ret", L(A))]]).lines,
+             ["r 0 7"], "why=unexplained"),       # a known-finding program with a value the model of the code does not produce
+            ("maptrace-bucket", ["maptrace ai:16:1"], ["T ai:16:1 size=8 unfilled=5 count=1 0:[16]"], "bad maptrace-bucket"),
+            ("maptrace-count", ["maptrace ai:16:1"], ["T ai:16:1 size=8 unfilled=5 count=2 1:[16]"], "bad maptrace-count"),
+            ("maptrace-duplicate", ["maptrace ai:16:1"], ["T ai:16:1 size=8 unfilled=5 count=2 1:[16,16]"], "bad maptrace-duplicate"),
+            ("maptrace-crash", ["maptrace ai:16:1"], ["sanitizer ERROR: AddressSanitizer: SEGV", "crash exit 1"], "bad impl-crash"),
+            ("macro-body-prefix", ["mdef PICK(ab, a) (a)"], ["D PICK nargs=2 exps=202028404129"], "bad macro-body"),
+            ("macro-body-missing", ["mdef PICK(ab, a) (a)"], [], "bad macro-body missing dump"),
+        ]
+        cases = [E.Case("n%d" % k, lines + ["--"] + impl) for k, (_, lines, impl, _) in enumerate(neg)]
+        out = E.nvdrive(self.id, "judge", E.cases_text(cases))
+        problems = []
+        for k, (name, _, _, want) in enumerate(neg):
+            got = out.get("n%d" % k, [])
+            if not any(want in v for v in got):
+                problems.append({"kind": "oracle-broken", "name": "judge accepts negative trace `%s`" % name,
+                                 "detail": "expected a verdict containing %r, got %r" % (want, got[:3])})
+        self.neg_examples = len(neg)
+        return problems
 
     def nontrivial_key(self, case, out):
         vals = [l for l in out if l.startswith("r ") and not l.endswith("!err") and not l.endswith("!nofn")]
@@ -1607,6 +1686,7 @@ PROP.theorems = ["NV.C03." + t for t in (
     "HT.mapping_lookup_after_insert", "HT.empty_refines",
     "Macro.macroParamMatch_iff", "Macro.matchParam_eq_paramOf", "Macro.specGo_eq", "Macro.scan_eq", "Macro.goRaw_blank",
     "Macro.macro_definition_agrees", "Macro.macro_expansion_agrees",
+    "index_guard_buf", "index_guard_str", "index_guard_arr",
     "mem_sortEntries", "pairwise_sortEntries", "sortedT_of_pairwise", "mem_strEntries", "string_switch_agrees",
     "wrap_id", "wrap_range", "tdiv_range", "tmod_range", "idiv_eq", "imod_eq")]
 PROP.witness_theorems = ["NV.C03." + t for t in (
